@@ -298,15 +298,20 @@ def render_package(spec: dict, target_dir) -> None:
             "path_templates = {",
         ]
         lines += ["    %r: _root + '/' + %r," % (n, t) for n, t in path_templates] + ["}"]
+        # a path configuration may spell the mapped state names its own way (its own one-to-one mapping and patterns)
+        states_here = {k: (v + spec["own_state_names"][cfg]) for k, v in spec["states"].items()} \
+            if cfg in spec.get("own_state_names", {}) else spec["states"]
         mapping = {pk: {v: k for k, v in spec["projects"].items()},
                    tk: {b["folder"]: b["code"] for b in spec["basetypes"] + spec.get("flat_basetypes", [])},
-                   sk: {v: k for k, v in spec["states"].items()}}
+                   sk: {v: k for k, v in states_here.items()}}
         kp = {sel: dict(v) for sel, v in key_patterns.items()}
         for sel, v in kp_fs.items():
             kp.setdefault(sel, {}).update(v)
+        kp[""] = dict(kp.get("", {}))
+        kp[""]["{%s}" % sk] = "{%s:%s}" % (sk, _pat(list(states_here.values())))
         # path templates name the type level by folder: the sid-side '{type:code}' patterns are irrelevant here
         lines += [
-            "path_defaults = {%r: %r}" % (sk, list(spec["states"].values())[0]),
+            "path_defaults = {%r: %r}" % (sk, list(states_here.values())[0]),
             "sidkeys_to_extrakeys = {}",
             "extrakeys_to_sidkeys = {}",
             "path_mapping = %s" % dump(mapping),
@@ -556,6 +561,10 @@ def specs(draw):
     if chance(20):
         spec["path_configs"] = ["local", "server", "cloud"]
         dims.append("third-path-config")
+    # 8a. a non-default path configuration with its own spelling of the mapped state names
+    if len(spec["path_configs"]) > 1 and chance(30):
+        spec["own_state_names"] = {spec["path_configs"][-1]: draw(st.sampled_from(["2", "_X", "old"]))}
+        dims.append("own-mapping-per-path-config")
     # 8b. the default path configuration need not be the first one listed
     if chance(30):
         spec["default_path_config"] = draw(st.sampled_from(spec["path_configs"]))
@@ -654,7 +663,7 @@ def canonical_specs():
         s["basetypes"][0]["joined"] = [1]      # asset folders named '<assettype>_<asset>' (as the demo names its shot folders)
     variant("states", states)
     variant("version-pattern", lambda s: s.update({"version": ["", 2]}))
-    variant("projects", lambda s: s.update({"projects": {"hamlet": "HAMLET", "othello": "OTH"}}))
+    variant("projects", lambda s: s.update({"projects": {"hamlet": "HAMLET", "othello": "OTH"}, "own_state_names": {"server": "_SRV"}}))
 
     def seps(s):
         s["sep"] = "--"
